@@ -97,6 +97,7 @@ def make_spec(seed, rng, k=None, mode=None, N=None, v=None):
     knobs = {'pipe_capacity': rng.choice([16, 64, 512, 65536])}
     if rng.random() < 0.3:
         knobs['defaults_split'] = rng.randint(0, 99)
+    _ws.gen_relpath(rng, world, disc, opt, plan, 0.1)
     return {'property': ID, 'seed': seed, 'world': world, 'plan': _ws.order_plan(plan),
             'opt': opt, 'sched': sched, 'knobs': knobs, 'mode': mode}
 
